@@ -37,6 +37,16 @@ CLAIMED = {
         "word is a complete subcommand name are not judged.",
         "DESIGN.md section 4, C16",
     ),
+    "C17": (
+        "proptest random search, metamorphic non-interference oracle: scripts generated with hostile vs innocuous descriptive text are reduced to token skeletons by per-shell lexers and must be equal; culprit slots identified by single-substitution re-runs; shrinking",
+        "Hostile strings (quotes of both kinds, typographic quotes, backslashes incl. trailing, $(..), ${x}, backticks, brackets, colons, "
+        "#, ;, |, &, newlines, CR, tabs, comment markers) are substituted into about / long_about / help / long_help / possible-value "
+        "help at any level; for each of the six generators the script must have the same token skeleton as with innocuous text of the "
+        "same emptiness (bash: identical bytes), and must lex at all.",
+        "Only bash is installed: for fish, zsh, PowerShell, elvish and nushell the lexers written from their documented quoting rules are "
+        "the trusted base; second-level mini-languages (zsh _arguments specs) are not modelled; names stay innocuous.",
+        "DESIGN.md section 4, C17",
+    ),
     "C18": (
         "proptest random search: totality over every cursor index, and a differential validity/completeness oracle against the built command's item set and the real parser, shrinking",
         "Part A calls the engine at every cursor index of argv built from generated trees (incl. hyphen-accepting args, unknown flags, "
